@@ -336,11 +336,27 @@ def msearch_history(descr):
     return gen.g3_case(n, kl, subs, [i for i in range(n) if (m >> i) & 1], touch, ins)
 
 
-def model_search(prop):
+def msearch_jobs_reads(tier):
+    """the families used by C07: every 4th transaction of these has its in-transaction scans compared with the reference
+    (after half and after all of its operations, at every bucket of the tree)"""
+    jobs = [["ranges", "1024", "24", "200", "3,6,11,17"], ["ranges", "1024", "30", "300", "4,15,22"]]
+    for i in range(8):
+        jobs.append(["random", "1024", str(500001 + i * 100), "100", "12", "8"])
+    for i in range(4):
+        jobs.append(["random", "4096", str(600001 + i * 60), "60", "12", "10"])
+    if tier == "thorough":
+        for i in range(16):
+            jobs.append(["random", "1024", str(700001 + i * 1500), "1500", "16", "10"])
+        jobs += [["ranges", "1024", "60", "120", "1,7,20,33,50"], ["ranges", "4096", "40", "1300", "2,9,30"],
+                 ["subsets", "1024", "12", "200", "2,5,9", "0", "4096"]]
+    return jobs
+
+
+def model_search(prop, jobs_of=None):
     def run(rep, rd, b):
         import concurrent.futures
-        jobs = msearch_jobs(rep.tier)
-        total, hits, failed = 0, [], 0
+        jobs = (jobs_of or msearch_jobs)(rep.tier)
+        total, hits, failed, scans = 0, [], 0, 0
         def one(j):
             return j, vlib.sh([vlib.MONITOR, "msearch"] + j, timeout=3000)
         with concurrent.futures.ThreadPoolExecutor(16) as ex:
@@ -352,11 +368,14 @@ def model_search(prop):
                     failed += 1
                     continue
                 total += int(m.group(1))
+                ms = re.search(r"scans_inside_tx=(\d+)", out)
+                scans += int(ms.group(1)) if ms else 0
                 for ln in out.split("\n"):
                     if ln.startswith("HIT "):
                         hits.append((int(j[1]), ln[4:]))
         rep.cov["model_search_cases"] = total
         rep.cov["model_search_hits"] = len(hits)
+        rep.cov["model_search_scans_inside_write_tx_vs_reference"] = scans
         rep.cov["model_search_families"] = sorted(set(" ".join(j[:5]) if j[0] != "random" else "random P=%s chains of %s tx x <=%s ops" % (j[1], j[4], j[5]) for j in jobs))
         for P, hit in hits[:3]:
             descr, why = hit.split(" :: ", 1)
@@ -628,9 +647,11 @@ def check_c07(tier, seed):
         "C07", tier, seed, cases_c07(tier, seed), dict(pagesize=1024, num_pages=64),
         "family G7: committed multi-level trees (8..300-byte keys @1024), then write transactions in which after EVERY "
         "single put / delete / bucket create / bucket delete the full read API (scan, get, get_kv, seek, range, buckets, "
-        "kv_pairs, next_int, recursive dump) is compared with the reference; G3 deletion subsets with an in-transaction "
-        "scan; non-trivial = > 5 calls; programs = histories run against the extracted reference",
-        on_result=snap_oracle, level="translation_validation")
+        "kv_pairs, next_int, recursive dump) is compared with the reference AND (get / scan / seek / range) with the engine "
+        "model's overlay (model/EngineScan.v) through the engine correspondence; G3 deletion subsets with an in-transaction "
+        "scan; cursors re-used across seeks; model-side search: in-transaction scans of every bucket vs the reference over "
+        "shape families; non-trivial = > 5 calls",
+        on_result=snap_oracle, level="proof", extra=model_search("C07", msearch_jobs_reads))
 
 
 # ----------------------------------------------------------------------------------------------
